@@ -158,6 +158,15 @@ def _transcript(case: dict, tsn: list, ssn_shift: int):
                 peer._get_inbound_stream(sid).sequence_number = v
 
     s.extra_op = extra_op
+
+    def after_each(n: int, op: dict) -> None:
+        if s.link is not None and s.link.tap is None:
+            def tap(side: int, data: bytes) -> None:
+                if len(data) > 12 and data[12] == 192:
+                    s.forward_tsn_seen = True
+            s.link.tap = tap
+
+    s.after_each_op = after_each
     s.run()
     final = (tuple(len(r.delivered[0]) for r in s.channels), tuple(len(r.delivered[1]) for r in s.channels),
              tuple(len(t._sent_queue) + len(t._outbound_queue) for t in s.sctp), tuple(t.state for t in s.sctp),
@@ -197,6 +206,8 @@ def run_sctp_origin(case: dict) -> Outcome:
             classes.add("ssn-wrap")
     if any(s1.t3_expiries):
         classes.add("t3")
+    if getattr(s1, "forward_tsn_seen", False):
+        classes.add("forward-tsn")
     if s1.link and sum(s1.link.dropped) + sum(s1.link.delayed) + sum(s1.link.duplicated):
         classes.add("faults")
     nt = ("tsn-wrap" in classes or "ssn-wrap" in classes) and "faults" in classes
@@ -216,6 +227,34 @@ def run_sctp_origin(case: dict) -> Outcome:
     if fin0 != fin1:
         return Outcome(f"final state differs: small origins {fin0}, origins below the wrap {fin1}", "origin-final-state-differs", nt, cl)
     return Outcome(None, None, nt, cl)
+
+
+@st.composite
+def ssn_abandon_case(draw, tier="quick"):
+    """Focused: one ordered partially reliable channel, small messages, a few of them lost for good (abandoned and skipped
+    with FORWARD-TSN), with the stream sequence numbers placed so that an abandoned message sits on / next to the wrap."""
+    n = draw(st.integers(4, 14))
+    lost = sorted(draw(st.lists(st.integers(0, n - 1), min_size=1, max_size=3, unique=True)))
+    side = draw(st.integers(0, 1))
+    mr = draw(st.sampled_from([0, 0, 1]))
+    ops = [{"op": "faults", "on": False},
+           {"op": "create", "side": side, "ordered": True, "mr": mr, "mlt": None, "label": "", "protocol": "", "dt": 0},
+           {"op": "await_open", "max_ms": 60000},
+           {"op": "shift_ssn", "dt": 500},
+           {"op": "faults", "on": True, "dt": 100}]
+    data_fates = []
+    for i in range(n):
+        ops.append({"op": "send", "ch": 0, "side": side, "kind": "bytes", "len": draw(st.sampled_from([10, 100, 1200, 1300])), "fill": i,
+                    "dt": draw(st.sampled_from([0, 0, 20, 1500]))})
+    # every transmission (and retransmission) of a lost message is dropped: simplest is a long run of drops placed by index;
+    # because timing decides which datagram is which, the list is drawn, not computed
+    data_fates = draw(st.lists(st.sampled_from([["x"], ["x"], ["d", 0], ["d", 0], ["d", 0], ["d", 3]]), min_size=n, max_size=4 * n))
+    fates = [data_fates, []] if side == 0 else [[], data_fates]
+    target = draw(st.sampled_from(lost))
+    # the message with index `target` gets stream sequence number 65535 + delta (mod 2^16); the OPEN/ACK used sequence 0
+    delta = draw(st.sampled_from([0, 0, 1, -1]))
+    return {"client": draw(st.integers(0, 1)), "start_at": 0, "ops": ops, "fates": fates,
+            "below": {"tsn0": draw(st.integers(0, 20)), "tsn1": draw(st.integers(0, 20)), "tag0": 0, "tag1": 0, "ssn": (target + delta) % 65536}}
 
 
 # --------------------------------------------------------------------------
@@ -383,6 +422,7 @@ CHECK = Check(
         Family("serial32", run_serial, serial32_case, quick=3000, thorough=100000, min_shard=500),
         Family("serial16-all-pairs", run_serial, custom=serial16_exhaustive, custom_shards=lambda tier: 16, thorough_only=True),
         Family("sctp-origin", run_sctp_origin, sctp_origin_case, quick=1500, thorough=50000, min_shard=20),
+        Family("ssn-abandon", run_sctp_origin, ssn_abandon_case, quick=1500, thorough=50000, min_shard=20),
         Family("jitter-origin", run_jitter_origin, jitter_origin_case, quick=3000, thorough=100000, min_shard=100),
         Family("nack-origin", run_nack_origin, nack_origin_case, quick=3000, thorough=100000, min_shard=100),
         Family("stats-origin", run_stats_origin, stats_origin_case, quick=3000, thorough=100000, min_shard=100),
